@@ -168,4 +168,17 @@ CHECKS = {
             dict(name="isolation", run="^TestIsolation$", quick=100, thorough=1000, shards=4),
         ],
     ),
+    "C14": dict(
+        pkg="c14", level="fault_enumeration",
+        rule=("each case = a generated history of <=12 steps (C01 namespace alphabet incl. root removal, plus handle steps hopen/hread/hwrite/htrunc/hstat/hreaddir/hclose on two slots) on keyvalue.FS over (plain) the plain map Store "
+              "reached through the serial fallback transaction and (reject) the real in-memory store behind a TransactionStore wrapper that rejects one operation (does not apply it, reports OpResult.Err). A fault-free dry run counts the store calls "
+              "(Get, Set, lazy Data(), lazy ReadDirNames()); then the history is re-run once per call index (all of them, at most 200) with that call failing with an error that matches no sentinel. Oracle: the FS operation during which the fault fires "
+              "returns an error -- always if the failing call is a Set, otherwise unless its result equals the fault-free result; nothing panics or hangs during or after; at the end every key the store really holds is found by a fresh Stat/ReadFile with the same "
+              "kind/perm/bytes and everything the FS lists is in the store. non-trivial = >=3 faults fired in a history with >=1 mutating step"),
+        assumptions=["one failing store call per run", "the plain store is lazy (Data/ReadDirNames evaluated on first use) like examples/s3, which cannot be built offline"],
+        legs=[
+            dict(name="plain", run="^TestPlain$", quick=150, thorough=1500, shards=6),
+            dict(name="reject", run="^TestReject$", quick=150, thorough=1500, shards=6),
+        ],
+    ),
 }
